@@ -13,7 +13,9 @@ Init == /\ pi \in 0..Len(Pool) /\ asg = <<>> /\ have = FALSE /\ ops = <<>>
 Next == \/ /\ pi > 0 /\ ~have /\ \E a \in Assignments(Pool[pi]) : asg' = a
            /\ have' = TRUE /\ UNCHANGED <<pi, ops>>
         \/ /\ pi = 0 /\ Len(ops) < MaxOps
-           /\ \E api \in Apis, n \in NamesN : ops' = Append(ops, [api |-> api, name |-> n, route |-> Len(ops) + 1])
+           /\ \/ \E api \in Apis, n \in NamesN : ops' = Append(ops, [api |-> api, name |-> n, route |-> Len(ops) + 1])
+              \/ \E k \in 1..Len(ops), n \in NamesN \cup {"n3"} :            \* rename an existing route (NamedTo)
+                     ops[k].api # "Rename" /\ ops' = Append(ops, [api |-> "Rename", name |-> n, route |-> ops[k].route])
            /\ UNCHANGED <<pi, asg, have>>
 
 HasCase == pi > 0 /\ have
